@@ -1239,6 +1239,8 @@ func (in *Interp) indexCands(elems []Value, idx Value, iw uint8, isigned bool) [
 		inRange := in.tt.Cmp(OpULt, x, in.tt.Const(iw, uint64(n)))
 		if n == 0 {
 			inRange = in.tt.False
+		} else if iw < 64 && uint64(n) > mask(iw) {
+			inRange = in.tt.True // every value of the index type is in range
 		}
 		if !in.decide(inRange) {
 			in.runtimePanic(fmt.Sprintf("index out of range [symbolic] with length %d", n))
@@ -1426,6 +1428,27 @@ func (in *Interp) lookupOp(fr *frame, i *ssa.Lookup) Value {
 		var v Value
 		found := false
 		if m != nil {
+			if _, conc := keyString(k); !conc && !m.symKeys && !in.spec {
+				// symbolic key into a map with concrete keys: ite chain instead of forking
+				var fv Value = false
+				v = zero(vt)
+				ents := m.live()
+				for x := len(ents) - 1; x >= 0; x-- {
+					eq := in.equal(ents[x].k, k, nil)
+					if b, ok := eq.(bool); ok {
+						if b {
+							v, fv = copyVal(ents[x].v), true
+						}
+						continue
+					}
+					v = in.mergeVal(eq.(*Term), copyVal(ents[x].v), v, vt)
+					fv = in.orv(eq, fv)
+				}
+				if i.CommaOk {
+					return Tuple{v, fv}
+				}
+				return v
+			}
 			e, _, _ := in.mapFind(m, k)
 			if e != nil {
 				v, found = copyVal(e.v), true
